@@ -267,10 +267,11 @@ func (x *XRefParser) parseTraditionalXRef() (*XRefTable, error) {
 			continue
 		}
 
-		// Check if we've reached the trailer
-		if line == "trailer" {
+		// Check if we've reached the trailer. The dictionary may start on the
+		// same line as the keyword ("trailer << /Size 6 ... >>").
+		if rest, ok := trailerKeyword(line); ok {
 			// Parse trailer dictionary
-			trailer, err := x.parseTrailer(scanner)
+			trailer, err := x.parseTrailerFrom(rest, scanner)
 			if err != nil {
 				return nil, fmt.Errorf("failed to parse trailer: %w", err)
 			}
@@ -563,10 +564,31 @@ func (x *XRefParser) parseEntry(line string) (*XRefEntry, error) {
 
 // parseTrailer parses the trailer dictionary after the "trailer" keyword.
 func (x *XRefParser) parseTrailer(scanner *bufio.Scanner) (Dict, error) {
+	return x.parseTrailerFrom("", scanner)
+}
+
+// trailerKeyword reports whether line starts with the "trailer" keyword and
+// returns whatever follows it on the same line.
+func trailerKeyword(line string) (string, bool) {
+	if !strings.HasPrefix(line, "trailer") {
+		return "", false
+	}
+	rest := line[len("trailer"):]
+	if rest == "" || rest[0] == '<' || rest[0] == ' ' || rest[0] == '\t' {
+		return rest, true
+	}
+	return "", false
+}
+
+// parseTrailerFrom parses the trailer dictionary whose text starts with first
+// (the remainder of the keyword's line) and continues on the scanner's lines.
+func (x *XRefParser) parseTrailerFrom(first string, scanner *bufio.Scanner) (Dict, error) {
 	// Collect all remaining lines until we find a dictionary
 	var dictText strings.Builder
+	dictText.WriteString(first)
+	dictText.WriteString("\n")
 
-	for scanner.Scan() {
+	for !strings.Contains(first, ">>") && scanner.Scan() {
 		line := scanner.Text()
 		dictText.WriteString(line)
 		dictText.WriteString("\n")
